@@ -38,9 +38,11 @@ class DPADistinguisherMixin(DistinguisherMixin):
 
         logger.info(f'Start updating accumulators for {self.__class__.__name__} with traces {traces.shape} and data {data.shape}.')
 
-        self.processed_ones += _np.sum(data, axis=0)
+        # Conversions first: a batch that cannot be converted must be refused before anything is accumulated.
+        ones = _np.sum(data, axis=0)
         traces = traces.astype(self.precision)
         data = data.astype(self.precision)
+        self.processed_ones += ones
         self.accumulator_traces += _np.sum(traces, axis=0)
         self.accumulator_ones += _np.dot(data.T, traces)
         logger.info(f'End updating accumulators for {self.__class__.__name__}.')
